@@ -189,6 +189,8 @@ def build(spec, trace="io", hash_ts=True, node_cls=None):
                   jitter=const.Jitter.BUFFER if c["jitter"] == "B" else const.Jitter.LATEST, delay_dist=mk_dist(c["delay"]))
         if "expected" in c:
             kw["delay"] = c["expected"]
+        if c.get("name"):
+            kw["name"] = c["name"]  # shadow input name
         nodes[c["inp"]].connect(nodes[c["out"]], **kw)
     return nodes, nodes[spec["supervisor"]]
 
